@@ -48,6 +48,12 @@ def _rel(a, b):
 
 def _make_map(rng, din, dout, r, cls, cplx):
     a_ops = [gen.rmat(rng, (dout, din), cplx) for _ in range(r)]
+    # dtype hostility: operators of one family with different dtypes, the first one the narrowest (float or int before complex)
+    pat = int(rng.integers(0, 4))
+    if pat == 1 and cplx:
+        a_ops[0] = np.ascontiguousarray(a_ops[0].real)
+    elif pat == 2:
+        a_ops[0] = np.round(2 * a_ops[0].real).astype(np.int64)
     if cls == "cp":
         b_ops = a_ops
     elif cls == "hp":  # Hermiticity preserving, not CP: signs
